@@ -63,3 +63,9 @@ import pygal_labels_send  # noqa: E402
 # the send side of the label path: Context.requeue (taskiq/context.py) and the label loop of
 # AsyncKicker._prepare_message (taskiq/kicker.py), over their own copy of LabelType / prepare_label (C09)
 SPECS["labels_send"] = pygal_labels_send.SPEC
+
+import pygal_procman  # noqa: E402
+
+# taskiq/cli/worker/process_manager.py: ProcessManager.start (one iteration of its loop) / prepare_workers,
+# ReloadAllAction.handle, ReloadOneAction.handle (C17, C18), monadic backend over PyPreludeProcMan.v (a state monad)
+SPECS["procman"] = pygal_procman.SPEC
